@@ -12,7 +12,7 @@ RULE = ("Hypothesis draws an operator expression (A@x, x@A, A@B, A@dense with 0-
         "seeds (70% small integers -> bit-exact oracle). Oracle: tensordot/elementwise expression on the checker's own "
         "dense contraction (M1..Md x N1..Nd). Non-trivial: some rank>1 and the row, column (and inner) size lists "
         "are not all equal. Distinct = structural signature.")
-BUDGET = {"quick": 12000, "thorough": 240000}
+BUDGET = {"quick": 12000, "thorough": 900000}
 FLOORS = {"quick": {"op:matvec": 300, "op:matmat": 300, "op:dense": 300, "rectangular": 2000, "batch:3": 30}}
 ASSUMPTIONS = ["dense reference = checker's own contraction; tensor scalars share the operand dtype"]
 
